@@ -83,6 +83,33 @@ Definition cursor_run (docs : list value) (f : value) (sort0 : list (string * Z)
   let! r := find_docs c f (k_sort k) in
   Ok (compute_results k (snd r)).
 
+(* The same program with the intermediate evaluations taken into account: cursor[0] (MPeek)
+   runs the query with the sort in force at that point; when that raises (an order the library
+   cannot establish, e.g. between two of its own ObjectIds) the exception is what the caller
+   sees, whatever the calls after it would have done. *)
+Definition c11_coll (docs : list value) : coll :=
+  mkColl (map (fun d => (match d with VDoc fs => match assoc "_id" fs with Some i => i | None => VNull end
+                                  | _ => VNull end, d)) docs) [] false 1000 0 [].
+
+Fixpoint run_meths_full (c : coll) (f : value) (k : cursor) (ms : list cmeth) : res cursor :=
+  match ms with
+  | [] => Ok k
+  | m :: ms' =>
+      let! k' := apply_meth k m in
+      let! _ := (match m with
+                 | MPeek => let! r := find_docs c f (k_sort k') in Ok tt
+                 | _ => Ok tt
+                 end) in
+      run_meths_full c f k' ms'
+  end.
+
+Definition cursor_run_full (docs : list value) (f : value) (sort0 : list (string * Z)) (skip0 limit0 : Z)
+           (ms : list cmeth) : res (list value) :=
+  let c := c11_coll docs in
+  let! k := run_meths_full c f (mkCursor sort0 skip0 (norm_limit limit0) false) ms in
+  let! r := find_docs c f (k_sort k) in
+  Ok (compute_results k (snd r)).
+
 (* count_documents(filter, skip=, limit=) *)
 Definition count_run (docs : list value) (f : value) (skip : Z) (limit : option Z) : res value :=
   let c := mkColl (map (fun d => (VNull, d)) docs) [] false 1000 0 [] in
@@ -231,6 +258,24 @@ Definition cursor_spec (docs : list value) (f : value) (sort0 : list (string * Z
   | Err _ => None
   end.
 
+(* the prefixes of the program that end in an evaluation (cursor[0]) *)
+Fixpoint peek_prefixes (pre ms : list cmeth) : list (list cmeth) :=
+  match ms with
+  | [] => []
+  | m :: ms' =>
+      let pre' := pre ++ [m] in
+      (match m with MPeek => [pre'] | _ => [] end) ++ peek_prefixes pre' ms'
+  end.
+
+(* the specified answer when the intermediate evaluations count: every evaluated prefix must be
+   decided too (an evaluation under an undecided order may raise) *)
+Definition cursor_spec_full (docs : list value) (f : value) (sort0 : list (string * Z)) (skip0 limit0 : Z)
+           (ms : list cmeth) : option (list value) :=
+  if forallb (fun p => match cursor_spec docs f sort0 skip0 limit0 p with Some _ => true | None => false end)
+             (peek_prefixes [] ms)
+  then cursor_spec docs f sort0 skip0 limit0 ms
+  else None.
+
 Definition count_spec (docs : list value) (f : value) (skip : Z) (limit : option Z) : option Z :=
   match scan (patch f) (map (fun d => (VNull, d)) docs ++ [(VNull, VDoc [])]) with
   | Ok m0 =>
@@ -257,7 +302,7 @@ Definition res_list_eqb (a b : res (list value)) : bool :=
 
 (* bit 0 mismatch, bit 1 property fails, bit 2 undecided, bit 3 unmodelled *)
 Definition c11_check (c : c11_case) : Z :=
-  let m := cursor_run (e_docs c) (e_filter c) (e_sort c) (e_skip c) (e_limit c) (e_meths c) in
+  let m := cursor_run_full (e_docs c) (e_filter c) (e_sort c) (e_skip c) (e_limit c) (e_meths c) in
   let mc := count_run (e_docs c) (e_filter c) (e_count_skip c) (e_count_limit c) in
   let unmod := match m with Err EUnmodelled => true | _ => false end
                || match mc with Err EUnmodelled => true | _ => false end in
@@ -267,7 +312,7 @@ Definition c11_check (c : c11_case) : Z :=
                         | Ok x, Ok y => value_eqb x y
                         | Err _, Err _ => true
                         | _, _ => false end)) in
-  let sp := cursor_spec (e_docs c) (e_filter c) (e_sort c) (e_skip c) (e_limit c) (e_meths c) in
+  let sp := cursor_spec_full (e_docs c) (e_filter c) (e_sort c) (e_skip c) (e_limit c) (e_meths c) in
   let p1 := match sp, e_impl c with
             | Some l, Ok r => list_eqb value_eqb l r
             | Some _, Err _ => false
@@ -285,6 +330,6 @@ Definition c11_check (c : c11_case) : Z :=
   + (match sp with None => 4 + 256 | Some _ => 0 end) + (if unmod then 8 else 0).
 
 Definition c11_explain (c : c11_case) :=
-  (cursor_run (e_docs c) (e_filter c) (e_sort c) (e_skip c) (e_limit c) (e_meths c),
-   cursor_spec (e_docs c) (e_filter c) (e_sort c) (e_skip c) (e_limit c) (e_meths c),
+  (cursor_run_full (e_docs c) (e_filter c) (e_sort c) (e_skip c) (e_limit c) (e_meths c),
+   cursor_spec_full (e_docs c) (e_filter c) (e_sort c) (e_skip c) (e_limit c) (e_meths c),
    count_run (e_docs c) (e_filter c) (e_count_skip c) (e_count_limit c)).
